@@ -1064,3 +1064,304 @@ pub fn c19_embedded(ctx: &mut Ctx, s: &str) {
     if let Some(f) = r.fragment() { let t = f.as_str().to_string(); c19_typed!(ctx, "Fragment", Fragment, &t, "via:embedded"); }
     ctx.nontrivial_cur();
 }
+
+// =====================================================================  operations (C04, C05, C09, C10, C11)
+
+#[derive(Clone, Debug, PartialEq, Eq)]
+pub enum Op {
+    Push(String),
+    Pop,
+    Clear,
+    SPush(String),
+    SAppend(String),
+    Norm,
+    SetScheme(Option<String>),
+    SetAuthority(Option<String>),
+    SetPath(String),
+    SetQuery(Option<String>),
+    SetFragment(Option<String>),
+    SetUserinfo(Option<String>),
+    SetHost(String),
+    SetPort(Option<String>),
+    Resolve(String),
+}
+
+impl Op {
+    pub fn name(&self) -> &'static str {
+        match self {
+            Op::Push(_) => "push", Op::Pop => "pop", Op::Clear => "clear", Op::SPush(_) => "symbolic_push", Op::SAppend(_) => "symbolic_append",
+            Op::Norm => "normalize", Op::SetScheme(_) => "set_scheme", Op::SetAuthority(_) => "set_authority", Op::SetPath(_) => "set_path",
+            Op::SetQuery(_) => "set_query", Op::SetFragment(_) => "set_fragment", Op::SetUserinfo(_) => "set_userinfo", Op::SetHost(_) => "set_host",
+            Op::SetPort(_) => "set_port", Op::Resolve(_) => "resolve",
+        }
+    }
+    pub fn is_path_op(&self) -> bool {
+        matches!(self, Op::Push(_) | Op::Pop | Op::Clear | Op::SPush(_) | Op::SAppend(_) | Op::Norm)
+    }
+    pub fn is_auth_op(&self) -> bool {
+        matches!(self, Op::SetUserinfo(_) | Op::SetHost(_) | Op::SetPort(_))
+    }
+    /// Are the arguments valid values of their types in this family (model)?
+    pub fn args_valid(&self) -> bool {
+        let v = |p: Prod, s: &str| valid(p, s.as_bytes());
+        match self {
+            Op::Push(s) | Op::SPush(s) => v(Prod::Segment, s),
+            Op::SAppend(p) | Op::SetPath(p) => v(Prod::Path, p),
+            Op::SetScheme(Some(s)) => v(Prod::Scheme, s),
+            Op::SetAuthority(Some(a)) => v(Prod::Authority, a),
+            Op::SetQuery(Some(q)) => v(Prod::Query, q),
+            Op::SetFragment(Some(f)) => v(Prod::Fragment, f),
+            Op::SetUserinfo(Some(u)) => v(Prod::UserInfo, u),
+            Op::SetHost(h) => v(Prod::Host, h),
+            Op::SetPort(Some(p)) => v(Prod::Port, p),
+            Op::Resolve(b) => v(Prod::Ri, b),
+            _ => true,
+        }
+    }
+}
+
+pub fn parse_ops(s: &str) -> Vec<Op> {
+    let mut v = Vec::new();
+    for line in s.split('\n') {
+        if line.is_empty() { continue; }
+        let (k, arg) = match line.find(':') { Some(i) => (&line[..i], Some(line[i + 1..].to_string())), None => (line, None) };
+        let op = match (k, arg) {
+            ("push", Some(a)) => Op::Push(a),
+            ("pop", None) => Op::Pop,
+            ("clear", None) => Op::Clear,
+            ("spush", Some(a)) => Op::SPush(a),
+            ("sappend", Some(a)) => Op::SAppend(a),
+            ("norm", None) => Op::Norm,
+            ("scheme", Some(a)) => Op::SetScheme(Some(a)),
+            ("scheme-", None) => Op::SetScheme(None),
+            ("auth", Some(a)) => Op::SetAuthority(Some(a)),
+            ("auth-", None) => Op::SetAuthority(None),
+            ("path", Some(a)) => Op::SetPath(a),
+            ("query", Some(a)) => Op::SetQuery(Some(a)),
+            ("query-", None) => Op::SetQuery(None),
+            ("frag", Some(a)) => Op::SetFragment(Some(a)),
+            ("frag-", None) => Op::SetFragment(None),
+            ("ui", Some(a)) => Op::SetUserinfo(Some(a)),
+            ("ui-", None) => Op::SetUserinfo(None),
+            ("host", Some(a)) => Op::SetHost(a),
+            ("port", Some(a)) => Op::SetPort(Some(a)),
+            ("port-", None) => Op::SetPort(None),
+            ("resolve", Some(a)) => Op::Resolve(a),
+            _ => continue,
+        };
+        v.push(op);
+    }
+    v
+}
+
+fn apply_path_op(pm: &mut PathMut, op: &Op) {
+    match op {
+        Op::Push(s) => pm.push(Segment::new(s.as_str()).unwrap()),
+        Op::Pop => pm.pop(),
+        Op::Clear => pm.clear(),
+        Op::SPush(s) => pm.symbolic_push(Segment::new(s.as_str()).unwrap()),
+        Op::SAppend(p) => pm.symbolic_append(Path::new(p.as_str()).unwrap().segments()),
+        Op::Norm => pm.normalize(),
+        _ => {}
+    }
+}
+fn apply_pathbuf_op(pb: &mut PathBuf, op: &Op) {
+    match op {
+        Op::Push(s) => pb.push(Segment::new(s.as_str()).unwrap()),
+        Op::Pop => pb.pop(),
+        Op::Clear => pb.clear(),
+        Op::SPush(s) => pb.symbolic_push(Segment::new(s.as_str()).unwrap()),
+        Op::SAppend(p) => pb.symbolic_append(Path::new(p.as_str()).unwrap().segments()),
+        Op::Norm => pb.normalize(),
+        _ => {}
+    }
+}
+fn apply_auth_op(am: &mut AuthorityMut, op: &Op) {
+    match op {
+        Op::SetUserinfo(u) => am.set_userinfo(u.as_ref().map(|u| UserInfo::new(u.as_str()).unwrap())),
+        Op::SetHost(h) => am.set_host(Host::new(h.as_str()).unwrap()),
+        Op::SetPort(p) => am.set_port(p.as_ref().map(|p| Port::new(p.as_bytes()).unwrap())),
+        _ => {}
+    }
+}
+/// Apply a buffer-level operation to an owned reference (fresh handles for path/authority ops).
+fn apply_ref_op(buf: &mut RiRefBuf, op: &Op) {
+    match op {
+        Op::SetScheme(s) => buf.set_scheme(s.as_ref().map(|s| Scheme::new(s.as_bytes()).unwrap())),
+        Op::SetAuthority(a) => buf.set_authority(a.as_ref().map(|a| Authority::new(a.as_str()).unwrap())),
+        Op::SetPath(p) => buf.set_path(Path::new(p.as_str()).unwrap()),
+        Op::SetQuery(q) => buf.set_query(q.as_ref().map(|q| Query::new(q.as_str()).unwrap())),
+        Op::SetFragment(f) => buf.set_fragment(f.as_ref().map(|f| Fragment::new(f.as_str()).unwrap())),
+        Op::Resolve(b) => buf.resolve(Ri::new(b.as_str()).unwrap()),
+        o if o.is_path_op() => { let mut pm = buf.path_mut(); apply_path_op(&mut pm, o); }
+        o if o.is_auth_op() => { if let Some(mut am) = buf.authority_mut() { apply_auth_op(&mut am, o); } }
+        _ => {}
+    }
+}
+/// The same for an owned full URI/IRI (set_scheme takes a scheme, not an option; no resolve).
+fn apply_full_op(buf: &mut RiBuf, op: &Op) -> bool {
+    match op {
+        Op::SetScheme(Some(s)) => buf.set_scheme(Scheme::new(s.as_bytes()).unwrap()),
+        Op::SetScheme(None) | Op::Resolve(_) => return false,
+        Op::SetAuthority(a) => buf.set_authority(a.as_ref().map(|a| Authority::new(a.as_str()).unwrap())),
+        Op::SetPath(p) => buf.set_path(Path::new(p.as_str()).unwrap()),
+        Op::SetQuery(q) => buf.set_query(q.as_ref().map(|q| Query::new(q.as_str()).unwrap())),
+        Op::SetFragment(f) => buf.set_fragment(f.as_ref().map(|f| Fragment::new(f.as_str()).unwrap())),
+        o if o.is_path_op() => { let mut pm = buf.path_mut(); apply_path_op(&mut pm, o); }
+        o if o.is_auth_op() => { if let Some(mut am) = buf.authority_mut() { apply_auth_op(&mut am, o); } }
+        _ => {}
+    }
+    true
+}
+
+fn first_seg_class(p: &[u8]) -> &'static str {
+    let (_abs, segs) = model::segments(p);
+    match segs.first() {
+        None => "none",
+        Some(s) if s.is_empty() => "empty",
+        Some(s) if s.contains(&b':') => "colon",
+        Some(s) if *s == b"." => "dot",
+        Some(s) if *s == b".." => "dotdot",
+        _ => "plain",
+    }
+}
+fn path_form(p: &[u8]) -> &'static str {
+    if p.is_empty() { "empty" } else if p == b"/" { "root" } else if p.starts_with(b"//") { "slashslash" } else if p.starts_with(b"/") { "absolute" } else { "relative" }
+}
+/// Small fixed feature vector of a reference state (used to key known findings and count states).
+fn state_feats(t: &[u8]) -> Vec<(&'static str, String)> {
+    let sp = model::split(t);
+    vec![
+        ("has_scheme", yn(sp.scheme.is_some())),
+        ("has_authority", yn(sp.authority.is_some())),
+        ("path_form", path_form(sp.path).into()),
+        ("first_seg", first_seg_class(sp.path).into()),
+    ]
+}
+fn state_hash(t: &[u8]) -> u64 {
+    let sp = model::split(t);
+    let s = format!("{}{}{}{}|{}|{}|{}", sp.scheme.is_some() as u8, sp.authority.is_some() as u8, sp.query.is_some() as u8, sp.fragment.is_some() as u8, path_form(sp.path), first_seg_class(sp.path), sp.authority.map_or("-", |a| host_kind(model::split_authority(a).host)));
+    crate::rng::hash_bytes(s.as_bytes())
+}
+
+// =====================================================================  C11
+
+fn c11_feats(op: &Op, clause_op_index: usize, before: &[u8]) -> Feats {
+    let a = model::split_authority(before);
+    vec![
+        ("family", FAM.into()),
+        ("op", op.name().into()),
+        ("arg", match op { Op::SetUserinfo(None) | Op::SetPort(None) => "remove".into(), _ => "set".into() }),
+        ("nth_edit_through_handle", if clause_op_index == 0 { "first".into() } else { "later".into() }),
+        ("host_kind", host_kind(a.host).into()),
+        ("had_userinfo", yn(a.user_info.is_some())),
+        ("had_port", yn(a.port.is_some())),
+    ]
+}
+
+/// A history of authority edits through ONE handle; compared with the record model after every
+/// call, with the enclosing text, and with the same history applied through fresh handles.
+pub fn c11_history(ctx: &mut Ctx, initial: &str, ops_text: &str) {
+    let ops: Vec<Op> = parse_ops(ops_text).into_iter().filter(|o| o.is_auth_op() && o.args_valid()).collect();
+    if ops.is_empty() { return; }
+    let sp0 = model::split(b(initial));
+    let Some(auth0) = sp0.authority else { ctx.stratum("skipped:no-authority"); return; };
+    let Ok(mut buf) = RiRefBuf::new(own(initial)) else { ctx.stratum("skipped:rejected-by-library"); return; };
+    let a0 = model::split_authority(auth0);
+    let mut m_ui: Option<Vec<u8>> = a0.user_info.map(|x| x.to_vec());
+    let mut m_host: Vec<u8> = a0.host.to_vec();
+    let mut m_port: Option<Vec<u8>> = a0.port.map(|x| x.to_vec());
+    // prefix/suffix of the enclosing text around the authority
+    let start = auth0.as_ptr() as usize - initial.as_ptr() as usize;
+    let prefix = b(initial)[..start].to_vec();
+    let suffix = b(initial)[start + auth0.len()..].to_vec();
+    // the model is independent of the library: compute every expected authority first
+    let mut expected_auths: Vec<Vec<u8>> = Vec::new();
+    {
+        let (mut ui, mut host, mut port) = (m_ui.clone(), m_host.clone(), m_port.clone());
+        for op in &ops {
+            match op {
+                Op::SetUserinfo(u) => ui = u.as_ref().map(|x| x.as_bytes().to_vec()),
+                Op::SetHost(h) => host = h.as_bytes().to_vec(),
+                Op::SetPort(p) => port = p.as_ref().map(|x| x.as_bytes().to_vec()),
+                _ => {}
+            }
+            expected_auths.push(model::render_authority(ui.as_deref(), &host, port.as_deref()));
+        }
+    }
+    ctx.stratum(&format!("host:{}", host_kind(a0.host)));
+    ctx.stratum(&format!("history-len:{}", ops.len().min(4)));
+    let mut broken = false;
+    {
+        let Some(mut am) = buf.authority_mut() else { ctx.fail("C11.handle", vec![("family", FAM.into())], "authority_mut() is None although an authority is present".into()); return; };
+        for (i, op) in ops.iter().enumerate() {
+            let before = model::render_authority(m_ui.as_deref(), &m_host, m_port.as_deref());
+            match op {
+                Op::SetUserinfo(u) => m_ui = u.as_ref().map(|x| x.as_bytes().to_vec()),
+                Op::SetHost(h) => m_host = h.as_bytes().to_vec(),
+                Op::SetPort(p) => m_port = p.as_ref().map(|x| x.as_bytes().to_vec()),
+                _ => {}
+            }
+            let want = model::render_authority(m_ui.as_deref(), &m_host, m_port.as_deref());
+            ctx.call(op.name());
+            let r = crate::ctx::guard(|| { apply_auth_op(&mut am, op); (am.as_authority().as_bytes().to_vec(), (*am).as_bytes().to_vec()) });
+            match r {
+                Err(m) => { ctx.fail("C11.panic", c11_feats(op, i, &before), format!("{} (edit #{} through one handle) on authority {} of {} panicked: {}", op.name(), i + 1, show(&before), show(b(initial)), m)); broken = true; break; }
+                Ok((view, deref_view)) => {
+                    if view != want || deref_view != want {
+                        ctx.fail("C11.handle-view", c11_feats(op, i, &before), format!("after {} {:?} (edit #{}) the handle views {} but the new authority is {} (initial {})", op.name(), op, i + 1, show(&view), show(&want), show(b(initial))));
+                        broken = true;
+                        break;
+                    }
+                    ctx.set_insert("states", crate::rng::hash_bytes(format!("{}|{}|{}", host_kind(&m_host), m_ui.is_some(), m_port.is_some()).as_bytes()));
+                    ctx.set_insert("transitions", crate::rng::hash_bytes(format!("{}|{}|{}|{}|{:?}", host_kind(model::split_authority(&before).host), model::split_authority(&before).user_info.is_some(), model::split_authority(&before).port.is_some(), op.name(), matches!(op, Op::SetUserinfo(None) | Op::SetPort(None))).as_bytes()));
+                }
+            }
+        }
+        if !broken {
+            let fin = crate::ctx::guard(|| am.into_authority().as_bytes().to_vec());
+            match fin {
+                Ok(f) => if &f != expected_auths.last().unwrap() { ctx.fail("C11.handle-view", c11_feats(&ops[ops.len() - 1], ops.len() - 1, &f), format!("into_authority() gives {} but the authority is {}", show(&f), show(expected_auths.last().unwrap()))); },
+                Err(m) => ctx.fail("C11.panic", c11_feats(&ops[ops.len() - 1], ops.len() - 1, b""), format!("into_authority panicked: {}", m)),
+            }
+        }
+    }
+    // enclosing text: only the authority replaced
+    let mut want_text = prefix.clone();
+    want_text.extend_from_slice(expected_auths.last().unwrap());
+    want_text.extend_from_slice(&suffix);
+    if !broken {
+        if buf.as_bytes() != &want_text[..] {
+            ctx.fail("C11.enclosing", c11_feats(&ops[ops.len() - 1], ops.len() - 1, auth0), format!("after {:?} on {} the buffer is {} but only the authority should have changed: {}", ops, show(b(initial)), show(buf.as_bytes()), show(&want_text)));
+        } else if !valid(Prod::RiRef, buf.as_bytes()) {
+            ctx.fail("C11.reparse", c11_feats(&ops[ops.len() - 1], ops.len() - 1, auth0), format!("after {:?} on {} the buffer {} is not a valid reference", ops, show(b(initial)), show(buf.as_bytes())));
+        }
+    }
+    // fresh handle per call
+    if let Ok(mut buf2) = RiRefBuf::new(own(initial)) {
+        for (i, op) in ops.iter().enumerate() {
+            let before = buf2.as_bytes().to_vec();
+            let r = crate::ctx::guard(|| { if let Some(mut am) = buf2.authority_mut() { apply_auth_op(&mut am, op); } });
+            let mut want = prefix.clone();
+            want.extend_from_slice(&expected_auths[i]);
+            want.extend_from_slice(&suffix);
+            match r {
+                Err(m) => { ctx.fail("C11.panic", { let mut f = c11_feats(op, 0, model::split(&before).authority.unwrap_or(b"")); f.push(("handle", "fresh".into())); f }, format!("{} through a fresh handle on {} panicked: {}", op.name(), show(&before), m)); break; }
+                Ok(()) => if buf2.as_bytes() != &want[..] {
+                    ctx.fail("C11.fresh", { let mut f = c11_feats(op, 0, model::split(&before).authority.unwrap_or(b"")); f.push(("handle", "fresh".into())); f }, format!("{:?} through a fresh handle on {} gives {} instead of {}", op, show(&before), show(buf2.as_bytes()), show(&want)));
+                    break;
+                },
+            }
+        }
+    }
+    // full URI/IRI buffers take the same path
+    if sp0.scheme.is_some() {
+        if let Ok(mut fb) = RiBuf::new(own(initial)) {
+            let r = crate::ctx::guard(|| { if let Some(mut am) = fb.authority_mut() { for op in &ops { apply_auth_op(&mut am, op); } } });
+            if r.is_ok() && !broken && fb.as_bytes() != &want_text[..] {
+                ctx.fail("C11.enclosing", { let mut f = c11_feats(&ops[0], 0, auth0); f.push(("buffer", "RiBuf".into())); f }, format!("RiBuf: after {:?} on {} the buffer is {} instead of {}", ops, show(b(initial)), show(fb.as_bytes()), show(&want_text)));
+            }
+        }
+    }
+    ctx.nontrivial_cur();
+}
